@@ -72,6 +72,12 @@ def gen(tier, seed):
               "    sc = rdscript_from_dict({'system': rdsystem_to_dict(mk_system(0, 0, 0)), 't_sample': [0, 2.0]})",
               "    ok = ok and sc.time_step.value == 1e-3 and sc.t_max.value == 2.0 and sc.sampling_policy == 'on_t_sample' and sc.sampling_interval.value == 1 and sc.init_state_processing == 'auto'",
               "    return ok", ""])
+    add("copy", "c12-copy", "copy_is_independent(kind, u)", ["pre: 0 <= kind <= 6 and 0 <= u <= 4"],
+        "copy() of a species / reaction / network / grid / graph / system / script is an equal object that shares nothing mutable with the original: editing the copy at the top level and in nested parts leaves the original's dictionary unchanged",
+        "kind: int, u: int", viol="copy() shares state with the original (or is not equal to it)")
+    add("units_arg", "c12-units-argument", "units_argument_not_aliased(kind)", ["pre: 0 <= kind <= 6"],
+        "the units system handed to a constructor is copied: editing the caller's UnitsSystem afterwards changes nothing in the model (7 classes)", "kind: int",
+        viol="a model object keeps a reference to the caller's UnitsSystem")
     # ---- file level (real file system, throw-away directory per evaluation)
     for kind in ("network", "space", "system", "script"):
         add("file_%s" % kind, "c12-file-%s" % kind, "file_rt(%r, u, fs, form)" % kind, ["pre: 0 <= u <= 4 and 0 <= fs <= 1 and 0 <= form <= 3"],
